@@ -41,6 +41,13 @@ def make_cases(rng, tier):
     specials = [("i64", 2 ** 53 + 1, "i64", 2 ** 53), ("u64", 2 ** 64 - 1, "i64", -1), ("u64", 2 ** 64 - 1, "u64", 2 ** 64 - 2),
                 ("i64", 2 ** 63 - 1, "u64", 2 ** 63), ("i64", -2 ** 63, "i64", -1), ("i64", 2 ** 63 - 1, "i64", 1), ("i64", -7, "i64", 2),
                 ("u64", 2 ** 63, "i64", 2), ("i8", -128, "u8", 255), ("u64", 9007199254740993, "f64", None), ("i64", 7, "i64", 0), ("u8", 7, "u8", 0)]
+    # the platform-sized kinds int and uint are 64 bits wide too: the same exactness, between themselves and against the sized kinds
+    for ka, kb in (("i", "i"), ("u", "u"), ("i", "u"), ("u", "i"), ("i", "i64"), ("u64", "u"), ("i32", "i"), ("u", "u16")):
+        for za, zb in ((2 ** 53 + 1, 2 ** 53), (2 ** 62 + 1, 2 ** 62), (2 ** 63 - 1, 2 ** 63 - 2), (2 ** 53, 2 ** 53 + 1)):
+            if any(k in BITS and z >= 2 ** (BITS[k] - (0 if k[0] == "u" else 1)) for k, z in ((ka, za), (kb, zb))):
+                continue
+            specials.append((ka, za, kb, zb))
+    specials += [("u", 2 ** 63 + 1, "u", 2 ** 63), ("u", 2 ** 64 - 1, "u64", 2 ** 64 - 2), ("u", 2 ** 63 + 1, "i", 2 ** 62)]
     for (ka, za, kb, zb) in specials:
         for op in ["+", "-", "*", "/"] + list(COP):
             a = tv_int(ka, za)
